@@ -29,6 +29,11 @@ REQUIRED = ["KV.C03.search_refinement", "KV.C03.probing_refines", "KV.C03.probin
             "KV.C03.trie_mark_loss_harmless", "KV.C03.quant_bin_singleton", "KV.C03.quant_exact", "KV.C03.quant_equal_multiplicity_lossless",
             "KV.C03.quant_distinct_fails", "KV.C03.quant_backoff_one_bit_overflows", "KV.C03.quant_centre_underflow_witness"]
 
+REQUIRED_BUILD = ["KV.C03ProbingBuild.insert_capacity_probingSize", "KV.C03ProbingBuild.findOrInsert_capacity_probingSize",
+                  "KV.C03ProbingBuild.insert_below_capacity", "KV.C03ProbingBuild.missing_context_format",
+                  "KV.C03ProbingBuild.build_bigram", "KV.C03ProbingBuild.build_bigram_capacity",
+                  "KV.C03ProbingBuild.probing_end_to_end_partial"]
+
 KEY_QUANT = "quant-distinct-values-but-count-exceeds-bins"
 KEY_BB1 = "quant-backoff-bits-1-overflow"
 KEY_PZ = "probing-unigram-plus-zero-independent-left"
@@ -348,7 +353,14 @@ def equalmult_stream(ctx, hexe, work, quick):
 
 
 def run(ctx):
-    problems, hexe, dexe = c01.setup(ctx, "C03", REQUIRED)
+    problems, hexe, dexe = c01.setup(ctx, "C03", REQUIRED, extra_targets=["Properties.C03ProbingBuild"])
+    # second audited file: the probing builder theorems
+    if not problems:
+        o1, d1, names1 = ctx.cov.get("obligations", 0), ctx.cov.get("discharged", 0), list(ctx.cov.get("theorems", []))
+        problems += lean.audit(ctx, "C03ProbingBuild", REQUIRED_BUILD)
+        ctx.cov["obligations"] += o1
+        ctx.cov["discharged"] += d1
+        ctx.cov["theorems"] = names1 + ctx.cov.get("theorems", [])
     if hexe is None:
         flow.report_obligation_failures(ctx, problems, False)
         return
